@@ -87,7 +87,41 @@ fn run_async<R: futures_util::io::AsyncRead + mediasan_common::AsyncSkip + Unpin
     out.join(",")
 }
 
-pub const ADAPTERS: [&str; 13] = [
+/// like `run_async`, but every future is polled to completion by a loop: the inner reader suspends according to a
+/// schedule (here: every poll of the underlying reader returns Pending once)
+fn run_async_driven<R: futures_util::io::AsyncRead + mediasan_common::AsyncSkip + Unpin>(mut r: R, ops: &[Op]) -> String {
+    use std::future::Future;
+    use std::task::{Context, Poll};
+    fn drive<F: Future + Unpin>(mut f: F) -> F::Output {
+        let w = futures_util::task::noop_waker();
+        let mut cx = Context::from_waker(&w);
+        for _ in 0..100_000 {
+            if let Poll::Ready(x) = std::pin::Pin::new(&mut f).poll(&mut cx) {
+                return x;
+            }
+        }
+        panic!("future never completed");
+    }
+    let mut out = vec![];
+    for op in ops {
+        out.push(match op {
+            Op::Read(n) => {
+                let mut buf = vec![0u8; *n as usize];
+                match drive(r.read_exact(&mut buf)) {
+                    Ok(()) => hex(&buf),
+                    Err(e) => format!("E{}", crate::mp4run::io_kind(e.kind())),
+                }
+            }
+            Op::Skip(n) => res_text(drive(r.skip(*n)).map(|_| "ok")),
+            Op::Pos => res_text(drive(r.stream_position())),
+            Op::Len => res_text(drive(r.stream_len())),
+        });
+    }
+    out.join(",")
+}
+
+pub const ADAPTERS: [&str; 15] = [
+    "abufreader-pend", "apinbox-pend",
     "cursor", "seekskip", "bufreader", "bufreader-seekskip", "refmut", "box", "bufreader-box-bufreader", "file",
     "acursor", "aseekskip", "abufreader", "apinbox", "abufreader-abufreader",
 ];
@@ -123,6 +157,16 @@ pub fn run_adapter(adapter: &str, cap: usize, s: &Sparse, ops: &[Op]) -> String 
                     "aseekskip" => run_async(SeekSkipAdapter(ACursor::new(d)), ops),
                     "abufreader" => run_async(ABufReader::with_capacity(cap, ACursor::new(d)), ops),
                     "apinbox" => run_async(Box::pin(ABufReader::with_capacity(cap, ACursor::new(d))), ops),
+                    "abufreader-pend" => {
+                        let sp = Sparse::from_bytes(&d);
+                        let sched: Vec<bool> = (0..100_000).map(|i| i % 2 == 0).collect();
+                        run_async_driven(ABufReader::with_capacity(cap, crate::c12::pend_native(&sp, sched)), ops)
+                    }
+                    "apinbox-pend" => {
+                        let sp = Sparse::from_bytes(&d);
+                        let sched: Vec<bool> = (0..100_000).map(|i| i % 3 != 2).collect();
+                        run_async_driven(Box::pin(ABufReader::with_capacity(cap, crate::c12::pend_native(&sp, sched))), ops)
+                    }
                     "abufreader-abufreader" => run_async(ABufReader::with_capacity(cap, ABufReader::with_capacity(3, ACursor::new(d))), ops),
                     other => panic!("unknown adapter {other}"),
                 }
@@ -188,7 +232,7 @@ pub fn run<W: Write>(opts: &Opts, out: &mut W) {
                     continue;
                 }
                 // rotate through the buffered adapters; the unbuffered ones only need one capacity
-                let adapter = ["bufreader", "bufreader-seekskip", "abufreader", "refmut", "box", "apinbox", "bufreader-box-bufreader", "abufreader-abufreader"][(idx % 8) as usize];
+                let adapter = ["bufreader", "bufreader-seekskip", "abufreader", "refmut", "box", "apinbox", "bufreader-box-bufreader", "abufreader-abufreader", "abufreader-pend", "apinbox-pend"][(idx % 10) as usize];
                 emit(out, &format!("ex{len}-{code}-{cap}"), adapter, cap, &s8, &ops);
                 if cap == 1 {
                     for a in ["cursor", "seekskip", "acursor", "aseekskip"] {
